@@ -11,6 +11,20 @@ def run(ctx):
     ctx.prove(MODULE, THEOREMS, extra_targets=DRIVERS)
     ctx.assumptions += chan.ASSUMPTIONS
     chan.explore(ctx, chan.C02_ORACLES)
+    # the same claim where a zero-copy consumer really sits: the monitoring client of the running pipeline holds a region
+    # (also across a refused second acquire_map_read) while the source keeps writing; the harness checks that the held bytes
+    # do not change, and the co-simulation with M1 that the refused call leaves every channel cursor alone
+    from . import rtx
+    ex = rtx.Explorer(ctx)
+    if ex.build():
+        keep = dict(ctx.cov)
+        rel = lambda p: p["kind"] in ("crash", "diff") or "monitor-region" in p["msg"] or "map-read-failed" in p["msg"]
+        rtx.explore(ctx, ex, ["remap", "remap", "holdmon", "slowmon"], 24 if ctx.tier == "thorough" else 5, 10 if ctx.tier == "thorough" else 5, rel)
+        ctx.cov.update(keep)
+        ctx.cov["pipeline_runs"] = {"runs": ex.stats["runs"], "per_class": ex.stats["per_class"], "oracle_kinds_hit": ex.stats["oracle_kinds"],
+                                    "cosim_runs": ex.stats["cosim_runs"], "cosim_agree": ex.stats["cosim_ok"], "decisions_compared": ex.stats["decisions"]}
+        ctx.cov["rule"] = ctx.cov.get("rule", "") + ("; pipeline level: classes remap/holdmon/slowmon of checks/rtx.py (client holding a mapped region, incl. a refused "
+                                                     "second map, while the source writes) with the oracle monitor-region-changed-while-mapped and co-simulation against M1")
 
 
 def replay(ctx, path):
